@@ -309,6 +309,11 @@ func (c *Conn) loadSession(dest string, hello *clientHelloMsg) (cacheKey string,
 	if !ok || session == nil {
 		return cacheKey, nil
 	}
+	// 主密钥已被清零的会话不可重用：同一个缓存被多个连接并发使用时，会话可能在以
+	// 会话ID 与 目的地址 两个键先后写入缓存的间隙被淘汰并清零，随后仍以第二个键进入缓存
+	if len(session.masterSecret) == 0 {
+		return "", nil
+	}
 	// 未关闭验证时，会话中记录的证书必须在当前配置下仍然有效，否则不重用（走完整握手）
 	if !c.config.InsecureSkipVerify && !c.sessionCertsStillValid(session) {
 		return "", nil
